@@ -5,6 +5,7 @@
  *   X id=<n>
  *   R <pathhex> <o|-><s|-> [<namehex>[=<valhex>]] ...      register a resource ("-" = empty string)
  *   F <filterhex|->                                        full listing + all windows for this filter
+ *   L <filterhex|->                                        full listing only
  *   G <szx> <filterhex|->                                  GET /.well-known/core[?filter] with Block2 SZX, reassemble
  *   E
  */
@@ -92,7 +93,7 @@ static void add_resource(char *rest) {
   coap_add_resource(ctx, r);
 }
 
-static void windows(const char *fh) {
+static void windows(const char *fh, int sweep) {
   uint8_t fb[256];
   size_t fn = unhex(fh, fb, sizeof(fb)), total, off, n;
   coap_string_t filt, *fp = NULL;
@@ -109,7 +110,7 @@ static void windows(const char *fh) {
   arr(sim_trace, big, COAP_PRINT_OUTPUT_LENGTH(res));
   fprintf(sim_trace, ",\"total\":%zu,\"err\":%d,\"trunc\":%s}\n", bl, (res & COAP_PRINT_STATUS_ERROR) != 0,
           (res & COAP_PRINT_STATUS_TRUNC) ? "true" : "false");
-  for (off = 0; off <= total + 2; off++) {
+  for (off = 0; sweep && off <= total + 2; off++) {
     for (n = 0; n <= total + 2; n++) {
       uint8_t *w = malloc(n ? n : 1);   /* exact size: writing past it is an ASan report */
       size_t wl = n;
@@ -216,13 +217,13 @@ int main(int argc, char **argv) {
       continue;
     } else if (line[0] == 'R') {
       add_resource(line + 1);
-    } else if (line[0] == 'F' || line[0] == 'G') {
+    } else if (line[0] == 'F' || line[0] == 'G' || line[0] == 'L') {
       char f[4096] = "-";
       int szx = 0;
       if (tablejson[0] != 1) {
         fprintf(sim_trace, "{\"e\":\"Table\",\"res\":[%s]}\n", tablejson);
       }
-      if (line[0] == 'F') { sscanf(line + 1, "%4095s", f); windows(f); }
+      if (line[0] == 'F' || line[0] == 'L') { sscanf(line + 1, "%4095s", f); windows(f, line[0] == 'F'); }
       else { sscanf(line + 1, "%d %4095s", &szx, f); block_get(szx, f); }
     }
   }
